@@ -68,7 +68,8 @@ pub fn feed<const M: usize>(seq: u32, class: u8) -> Feed<M> {
     let mut items = [(0u8, 0u8, 0u8); M];
     let mut j = 0;
     while j < M {
-        items[j] = (key_of(seq, j), sym::u8(), sym::u8());
+        let prio = if unsafe { crate::gen::FLAT } { 7 } else { sym::u8() };
+        items[j] = (key_of(seq, j), sym::u8(), prio);
         j += 1;
     }
     let (lo, hi) = hint(class, M);
